@@ -937,25 +937,38 @@ impl Fixture {
 		WsPeer::connect(client_io, conn).await
 	}
 
-	/// One HTTP request through the low-level `http::call_with_service_builder` API.
+	/// One HTTP request through the low-level `http::call_with_service_builder` API. As in the example server every
+	/// request first takes a slot of the connection guard all low-level sessions of this fixture share.
 	pub async fn http_lowlevel(&self, req: HttpReq) -> HttpResp {
+		self.http_lowlevel_detached(req).await
+	}
+
+	/// the same as a future that does not borrow the fixture (so that it can be left in flight)
+	pub fn http_lowlevel_detached(&self, req: HttpReq) -> impl Future<Output = HttpResp> + Send + 'static {
 		use jsonrpsee_server::ConnectionState;
 		use jsonrpsee_server::middleware::rpc::RpcServiceBuilder;
-		let mut request = match build_request(&req) {
-			Ok(r) => r,
-			Err(e) => return HttpResp { status: 0, body: e.into_bytes(), content_type: None },
-		};
-		request.extensions_mut().insert(HarnessMark);
-		let guard = ConnectionGuard::new(8);
-		let conn = ConnectionState::new(self.stop.clone(), 0, guard.try_acquire().unwrap());
-		let resp = jsonrpsee_server::http::call_with_service_builder(request, self.server_cfg.clone(), conn, self.methods.clone(), RpcServiceBuilder::new()).await;
-		let status = resp.status().as_u16();
-		let content_type = resp.headers().get("content-type").and_then(|v| v.to_str().ok()).map(|s| s.to_string());
-		let body = match resp.into_body().collect().await {
-			Ok(c) => c.to_bytes().to_vec(),
-			Err(e) => e.to_string().into_bytes(),
-		};
-		HttpResp { status, body, content_type }
+		let (stop, server_cfg, methods, guard) = (self.stop.clone(), self.server_cfg.clone(), self.methods.clone(), self.lowlevel_guard.clone());
+		async move {
+			let mut request = match build_request(&req) {
+				Ok(r) => r,
+				Err(e) => return HttpResp { status: 0, body: e.into_bytes(), content_type: None },
+			};
+			request.extensions_mut().insert(HarnessMark);
+			let resp = match guard.try_acquire() {
+				Some(permit) => {
+					let conn = ConnectionState::new(stop, 0, permit);
+					jsonrpsee_server::http::call_with_service_builder(request, server_cfg, conn, methods, RpcServiceBuilder::new()).await
+				}
+				None => jsonrpsee_server::http::response::too_many_requests(),
+			};
+			let status = resp.status().as_u16();
+			let content_type = resp.headers().get("content-type").and_then(|v| v.to_str().ok()).map(|s| s.to_string());
+			let body = match resp.into_body().collect().await {
+				Ok(c) => c.to_bytes().to_vec(),
+				Err(e) => e.to_string().into_bytes(),
+			};
+			HttpResp { status, body, content_type }
+		}
 	}
 }
 
